@@ -64,6 +64,8 @@ class Sim(object):
         self.replay_plan = config.get("replay_plan")  # {region#: [schedule json]} for exact replays
         self.enabled = True
         self.declared_threads = None  # what numba.get_num_threads() answers inside interpreted kernels
+        self.red_final = {}
+        self.red_fallback = {}
 
     # ------------------------------------------------------------------ installation
     def install(self):
@@ -217,9 +219,46 @@ class Sim(object):
         X.arr[idx] = op(old, v)
         run.point(run.current, "aug_store", X, cells)
 
-    def call(self, f, *args):
-        if not any(isinstance(a, Tracked) for a in args):
-            return f(*args)
+    # ---- scalar reductions (x op= v on an outer scalar inside a prange body) ---------------------------
+    # Numba gives every worker a private copy initialised with the identity and combines the copies after
+    # the loop, so a floating-point reduction depends on the worker count and on the iteration assignment.
+    def reduce(self, k, name, opname, v):
+        run = self.run_ctx
+        store = run.partials if run is not None else self.red_fallback
+        w = run.current if run is not None else 0
+        key = (k, name)
+        d = store.setdefault(key, {"op": "mul" if opname == "mul" else "add", "parts": {}})
+        parts = d["parts"]
+        if w not in parts:
+            zero = np.zeros((), dtype=np.asarray(v).dtype)[()]
+            parts[w] = (zero + 1) if opname == "mul" else zero
+        if opname == "add":
+            parts[w] = parts[w] + v
+        elif opname == "sub":
+            parts[w] = parts[w] - v
+        else:
+            parts[w] = parts[w] * v
+
+    @staticmethod
+    def _fold(entry):
+        acc = None
+        for w in sorted(entry["parts"]):
+            p = entry["parts"][w]
+            acc = p if acc is None else ((acc * p) if entry["op"] == "mul" else (acc + p))
+        return acc
+
+    def reduce_result(self, k, name, init):
+        entry = self.red_final.pop((k, name), None)
+        if entry is None:
+            entry = self.red_fallback.pop((k, name), None)
+        if entry is None or not entry["parts"]:
+            return init
+        comb = self._fold(entry)
+        return (init * comb) if entry["op"] == "mul" else (init + comb)
+
+    def call(self, f, *args, **kwargs):
+        if not any(isinstance(a, Tracked) for a in args) and not any(isinstance(a, Tracked) for a in kwargs.values()):
+            return f(*args, **kwargs)
         target = f
         if isinstance(f, SimKernel):
             target = f.dispatcher
@@ -236,9 +275,9 @@ class Sim(object):
             fn, ns = ent
             ns["__sim"] = self
             self.out.probe("callee_interpreted")
-            return fn(*args)
+            return fn(*args, **kwargs)
         if inspect.isfunction(f):
-            return f(*args)
+            return f(*args, **kwargs)
         raise SimError(
             "shared array passed to %r, which has no Python source: cannot observe its accesses" % (f,)
         )
@@ -333,14 +372,29 @@ class Sim(object):
         return out
 
     # ------------------------------------------------------------------ the region protocol
-    def parallel_for(self, k, n, body, getters, rebind, sub_stored):
-        n = int(n)
+    def parallel_for(self, k, range_args, body, getters, rebind, sub_stored):
+        if not isinstance(range_args, tuple):
+            range_args = (range_args,)
+        its = range(*[int(a) for a in range_args])
+        n = len(its)
+        if not (its.start == 0 and its.step == 1):
+            inner = body
+            values = list(its)
+
+            def body(j, inner=inner, values=values):  # noqa: F811
+                return inner(values[j])
+
         kernel = self.kernel_stack[-1] if self.kernel_stack else None
         kname = kernel.name if kernel is not None else "?"
         if self.in_region or not self.enabled:
             # a parallel region reached from inside another one runs serially (Numba's own rule)
-            for i in range(n):
-                body(i)
+            saved = self.run_ctx
+            self.run_ctx = None
+            try:
+                for i in range(n):
+                    body(i)
+            finally:
+                self.run_ctx = saved
             return
         region_id = self.region_counter
         self.region_counter += 1
@@ -380,6 +434,11 @@ class Sim(object):
                 self.promoted.setdefault(key, set()).update(changed)
                 self.out.probe("write_discovered_through_callee")
             serial_state = {nm: shared[nm].copy() for nm in tracked_names}
+            serial_red = {key: self._fold(e) for key, e in serial.partials.items() if key[0] == k}
+            for key, e in serial.partials.items():
+                if key[0] == k:
+                    self.red_final[key] = e
+                    self.out.probe("scalar_reduction_regions")
             cands = mon.candidates()
             est = max(serial.steps, mon.accesses * 3 + n)
             rec = {
@@ -427,6 +486,14 @@ class Sim(object):
                             "cells_differing": int(len(bad)),
                         }
                         break
+                if equal and serial_red:
+                    for key, ref in sorted(serial_red.items()):
+                        got = self._fold(run.partials.get(key, {"op": "add", "parts": {}}))
+                        same = got is not None and np.asarray(got).tobytes() == np.asarray(ref).tobytes() and np.asarray(got).dtype == np.asarray(ref).dtype
+                        if not same:
+                            equal = False
+                            diff = {"reduction_variable": key[1], "serial": repr(ref), "scheduled": repr(got)}
+                            break
                 rec["schedules"].append(
                     [sched.label(), run.switches, run.trace_digest(), bool(equal)]
                 )
